@@ -11,9 +11,16 @@ UNIV = ["1", "(+ 0 1)", "1.0", "1.0s0", "2", "2.5", "0", "0.0", "-3", "-3.0",
         "(list 1 2)", "(list 1 2)", "(list 1 2.0)", "(vector 1 2)", "(vector 1 2)", "nil", "t", '""',
         '(list "a" (list 1))', '(list "A" (list 1.0))', "9007199254740993", "9007199254740992.0d0", "9007199254740992",
         # (appended: the indices above are used by KEYSETS / COERCE) complex numbers without an imaginary part, a ratio and the float next to it
-        "5", "#C(5 0)", "5.0", "#C(5.0 0.0)", "1/3", "(/ 1.0d0 3)", "0.5", "(list 5 1/2)", "(list #C(5 0) 0.5)"]
+        "5", "#C(5 0)", "5.0", "#C(5.0 0.0)", "1/3", "(/ 1.0d0 3)", "0.5", "(list 5 1/2)", "(list #C(5 0) 0.5)",
+        # vectors with a fill pointer over the same storage, and the plain vector of their active elements
+        "(make-array 4 :fill-pointer 2 :initial-contents '(1 2 3 4))", "(make-array 4 :fill-pointer 3 :initial-contents '(1 2 3 4))",
+        "(make-array 2 :initial-contents '(1 2))", "(make-array 4 :fill-pointer 2 :initial-contents '(1 2 9 9))",
+        # an instance of a flavor that was asked about (typep) and then redefined with another ancestry, and one of a flavor defined once
+        "(progn (defflavor c16fa () ()) (defflavor c16fc () ()) (defflavor c16fb () (c16fa)) (typep (make-instance 'c16fb) 'c16fa) "
+        "(typep (make-instance 'c16fb) 'c16fc) (undefflavor 'c16fb) (defflavor c16fb () (c16fc)) (make-instance 'c16fb))",
+        "(make-instance 'c16fa)"]
 TYPES = ["t", "number", "real", "rational", "integer", "fixnum", "bignum", "ratio", "float", "single-float", "double-float", "string",
-         "symbol", "keyword", "character", "list", "cons", "null", "sequence", "vector", "array", "atom"]
+         "symbol", "keyword", "character", "list", "cons", "null", "sequence", "vector", "array", "atom", "c16fa", "c16fb", "c16fc"]
 # every object of the universe coerced to every type name (most coercions are errors: the law is about the ones that succeed)
 COERCE = [[i, t] for i in range(len(UNIV)) for t in TYPES]
 KEYSETS = {"numbers": [0, 1, 2, 4], "strings": [14, 15, 16, 17], "chars-symbols": [20, 21, 17, 19], "zero-negative": [6, 7, 8, 9],
